@@ -505,6 +505,179 @@ pub mod unit_nuts {
         let v: int = if xr_lt(u1, half()) == pol { 1 } else { -1 };
         lemma_bt_alpha::<B, G>(t, if v == -1 { prev.minus } else { prev.plus }, logu, v, prev.j, eps, joint0, unif_next(prev.rng));
     }
+    // ---- C03 corollary: the next state is the previous state or a slice-admissible point of the leapfrog trajectory ----
+    /// the point k leapfrog steps of size e from p (carried gradient)
+    pub open spec fn traj<B: AutodiffBackend, G: GradientTarget<B>>(t: &G, p: Pt, e: XR, k: nat) -> Pt decreases k {
+        if k == 0 { p } else { lf::<B, G>(t, traj::<B, G>(t, p, e, (k - 1) as nat), e).0 }
+    }
+    pub open spec fn ve(v: int, eps: XR) -> XR { xr_mul(XR::Fin(v as real), eps) }
+    /// (x, g, lp) are those of the point k steps from p, and that point lies above the slice level
+    pub open spec fn is_traj_point<B: AutodiffBackend, G: GradientTarget<B>>(t: &G, p: Pt, e: XR, k: nat, cx: V, cg: V, clp: XR) -> bool {
+        let q = traj::<B, G>(t, p, e, k);
+        k >= 1 && cx == q.x && cg == q.g && clp == t.lp(q.x)
+    }
+    pub open spec fn admissible_at<B: AutodiffBackend, G: GradientTarget<B>>(t: &G, p: Pt, e: XR, k: nat, logu: XR) -> bool {
+        let q = traj::<B, G>(t, p, e, k);
+        xr_lt(logu, joint_of(t.lp(q.x), q.r))
+    }
+    /// number of leapfrog steps BuildTree takes (2^j unless a subtree stopped)
+    pub open spec fn bt_len<B: AutodiffBackend, G: GradientTarget<B>>(t: &G, p: Pt, logu: XR, v: int, j: nat, eps: XR, joint0: XR, s: RngState) -> nat decreases j {
+        if j == 0 { 1 } else {
+            let (t1, s1) = bt::<B, G>(t, p, logu, v, (j - 1) as nat, eps, joint0, s);
+            let l1 = bt_len::<B, G>(t, p, logu, v, (j - 1) as nat, eps, joint0, s);
+            if !t1.s { l1 } else { l1 + bt_len::<B, G>(t, if v == -1 { t1.minus } else { t1.plus }, logu, v, (j - 1) as nat, eps, joint0, s1) }
+        }
+    }
+    /// how many leapfrog steps from p the candidate of the tree lies
+    pub open spec fn bt_idx<B: AutodiffBackend, G: GradientTarget<B>>(t: &G, p: Pt, logu: XR, v: int, j: nat, eps: XR, joint0: XR, s: RngState) -> nat decreases j {
+        if j == 0 { 1 } else {
+            let (t1, s1) = bt::<B, G>(t, p, logu, v, (j - 1) as nat, eps, joint0, s);
+            let i1 = bt_idx::<B, G>(t, p, logu, v, (j - 1) as nat, eps, joint0, s);
+            if !t1.s { i1 } else {
+                let edge = if v == -1 { t1.minus } else { t1.plus };
+                let (t2, s2) = bt::<B, G>(t, edge, logu, v, (j - 1) as nat, eps, joint0, s1);
+                let u = val(unif_out(s2));
+                if xr_lt(u, xr_div(XR::Fin(t2.n as real), XR::Fin(max1(t1.n + t2.n) as real))) {
+                    bt_len::<B, G>(t, p, logu, v, (j - 1) as nat, eps, joint0, s) + bt_idx::<B, G>(t, edge, logu, v, (j - 1) as nat, eps, joint0, s1)
+                } else { i1 }
+            }
+        }
+    }
+    pub proof fn lemma_traj_add<B: AutodiffBackend, G: GradientTarget<B>>(t: &G, p: Pt, e: XR, a: nat, b: nat)
+        ensures traj::<B, G>(t, traj::<B, G>(t, p, e, a), e, b) == traj::<B, G>(t, p, e, a + b)
+        decreases b
+    {
+        if b > 0 {
+            lemma_traj_add::<B, G>(t, p, e, a, (b - 1) as nat);
+            assert((a + b - 1) as nat == a + (b - 1) as nat);
+        }
+    }
+    /// BuildTree only ever visits points of the leapfrog trajectory through p: its far end is L steps away, its near end one
+    /// step, its candidate I steps (1 <= I <= L), and when the tree has an admissible point (n >= 1) the candidate is one
+    pub proof fn lemma_bt_on_trajectory<B: AutodiffBackend, G: GradientTarget<B>>(t: &G, p: Pt, logu: XR, v: int, j: nat, eps: XR, joint0: XR, s: RngState)
+        requires v == 1 || v == -1
+        ensures ({       // [C03.build_tree_visits_only_the_leapfrog_trajectory_and_selects_admissible_points]
+            let tr = bt::<B, G>(t, p, logu, v, j, eps, joint0, s).0;
+            let l = bt_len::<B, G>(t, p, logu, v, j, eps, joint0, s);
+            let i = bt_idx::<B, G>(t, p, logu, v, j, eps, joint0, s);
+            let e = ve(v, eps);
+            &&& 1 <= i <= l
+            &&& (if v == -1 { tr.minus } else { tr.plus }) == traj::<B, G>(t, p, e, l)
+            &&& (if v == -1 { tr.plus } else { tr.minus }) == traj::<B, G>(t, p, e, 1)
+            &&& is_traj_point::<B, G>(t, p, e, i, tr.cx, tr.cg, tr.clp)
+            &&& tr.n >= 1 ==> admissible_at::<B, G>(t, p, e, i, logu)
+        })
+        decreases j
+    {
+        reveal_with_fuel(bt, 2);
+        let e = ve(v, eps);
+        assert(traj::<B, G>(t, p, e, 1) == lf::<B, G>(t, traj::<B, G>(t, p, e, 0), e).0);
+        if j == 0 {
+        } else {
+            let jm = (j - 1) as nat;
+            let (t1, s1) = bt::<B, G>(t, p, logu, v, jm, eps, joint0, s);
+            lemma_bt_on_trajectory::<B, G>(t, p, logu, v, jm, eps, joint0, s);
+            let l1 = bt_len::<B, G>(t, p, logu, v, jm, eps, joint0, s);
+            if t1.s {
+                let edge = if v == -1 { t1.minus } else { t1.plus };
+                let (t2, s2) = bt::<B, G>(t, edge, logu, v, jm, eps, joint0, s1);
+                lemma_bt_on_trajectory::<B, G>(t, edge, logu, v, jm, eps, joint0, s1);
+                let l2 = bt_len::<B, G>(t, edge, logu, v, jm, eps, joint0, s1);
+                let i2 = bt_idx::<B, G>(t, edge, logu, v, jm, eps, joint0, s1);
+                lemma_traj_add::<B, G>(t, p, e, l1, l2);
+                lemma_traj_add::<B, G>(t, p, e, l1, i2);
+                let u = val(unif_out(s2));
+                broadcast use ax_unif_range;
+                let den = max1(t1.n + t2.n) as real;
+                if t2.n == 0 {
+                    assert(0real / den == 0real) by(nonlinear_arith) requires den >= 1real;
+                } else if t1.n == 0 {
+                    assert(den == t2.n as real);
+                    assert(den / den == 1real) by(nonlinear_arith) requires den >= 1real;
+                }
+            }
+        }
+    }
+    /// where the doubling loop stands after k iterations, counted in leapfrog steps from the start point
+    pub struct OGeo { pub km: nat, pub kp: nat, pub dir: int, pub idx: nat }
+    pub open spec fn outer_geo<B: AutodiffBackend, G: GradientTarget<B>>(t: &G, eps: XR, logu: XR, joint0: XR, pol: bool, st0: OSt, k: nat) -> OGeo
+        decreases k
+    {
+        if k == 0 { OGeo { km: 0, kp: 0, dir: 0, idx: 0 } } else {
+            let st = outer_iter::<B, G>(t, eps, logu, joint0, pol, st0, (k - 1) as nat);
+            let g = outer_geo::<B, G>(t, eps, logu, joint0, pol, st0, (k - 1) as nat);
+            let u1 = val(unif_out(st.rng));
+            let sa = unif_next(st.rng);
+            let v: int = if xr_lt(u1, half()) == pol { 1 } else { -1 };
+            let edge = if v == -1 { st.minus } else { st.plus };
+            let (tr, sb) = bt::<B, G>(t, edge, logu, v, st.j, eps, joint0, sa);
+            let l = bt_len::<B, G>(t, edge, logu, v, st.j, eps, joint0, sa);
+            let i = bt_idx::<B, G>(t, edge, logu, v, st.j, eps, joint0, sa);
+            let u2 = val(unif_out(sb));
+            let take = tr.s && xr_lt(u2, xr_min(XR::Fin(1real), xr_div(XR::Fin(tr.n as real), XR::Fin(st.n as real))));
+            OGeo { km: if v == -1 { g.km + l } else { g.km }, kp: if v == -1 { g.kp } else { g.kp + l },
+                   dir: if take { v } else { g.dir }, idx: if take { (if v == -1 { g.km } else { g.kp }) + i } else { g.idx } }
+        }
+    }
+    /// the doubling loop keeps both ends on the leapfrog trajectory through the start point and its selected point is the
+    /// start point itself or a slice-admissible point of that trajectory
+    pub open spec fn outer_on_trajectory<B: AutodiffBackend, G: GradientTarget<B>>(t: &G, eps: XR, logu: XR, p0: Pt, st: OSt, g: OGeo) -> bool {
+        &&& st.minus == traj::<B, G>(t, p0, ve(-1, eps), g.km) && st.plus == traj::<B, G>(t, p0, ve(1, eps), g.kp)
+        &&& st.n >= 1
+        &&& g.dir == 0 ==> st.x == p0.x
+        &&& g.dir != 0 ==> (g.dir == 1 || g.dir == -1) && g.idx >= 1 && st.x == traj::<B, G>(t, p0, ve(g.dir, eps), g.idx).x
+                && admissible_at::<B, G>(t, p0, ve(g.dir, eps), g.idx, logu)
+    }
+    pub proof fn lemma_outer_on_trajectory<B: AutodiffBackend, G: GradientTarget<B>>(t: &G, eps: XR, logu: XR, joint0: XR, pol: bool, st0: OSt, p0: Pt, k: nat)
+        requires st0.minus == p0 && st0.plus == p0 && st0.x == p0.x && st0.n >= 1
+        ensures outer_on_trajectory::<B, G>(t, eps, logu, p0, outer_iter::<B, G>(t, eps, logu, joint0, pol, st0, k), outer_geo::<B, G>(t, eps, logu, joint0, pol, st0, k))
+        decreases k
+    {
+        if k > 0 {
+            let km1 = (k - 1) as nat;
+            lemma_outer_on_trajectory::<B, G>(t, eps, logu, joint0, pol, st0, p0, km1);
+            let st = outer_iter::<B, G>(t, eps, logu, joint0, pol, st0, km1);
+            let g = outer_geo::<B, G>(t, eps, logu, joint0, pol, st0, km1);
+            let u1 = val(unif_out(st.rng));
+            let sa = unif_next(st.rng);
+            let v: int = if xr_lt(u1, half()) == pol { 1 } else { -1 };
+            let edge = if v == -1 { st.minus } else { st.plus };
+            let (tr, sb) = bt::<B, G>(t, edge, logu, v, st.j, eps, joint0, sa);
+            lemma_bt_on_trajectory::<B, G>(t, edge, logu, v, st.j, eps, joint0, sa);
+            let l = bt_len::<B, G>(t, edge, logu, v, st.j, eps, joint0, sa);
+            let i = bt_idx::<B, G>(t, edge, logu, v, st.j, eps, joint0, sa);
+            let base = if v == -1 { g.km } else { g.kp };
+            lemma_traj_add::<B, G>(t, p0, ve(v, eps), base, l);
+            lemma_traj_add::<B, G>(t, p0, ve(v, eps), base, i);
+            broadcast use ax_unif_range;
+            let den = st.n as real;
+            if tr.n == 0 {
+                assert(0real / den == 0real) by(nonlinear_arith) requires den >= 1real;
+            }
+        }
+    }
+    /// C03, "in particular": after any transition the chain is at the previous state or at a point of the leapfrog trajectory
+    /// through it (some number of steps of +eps or -eps from the start point and the momentum drawn) whose joint
+    /// log-density exceeds the slice level
+    pub proof fn lemma_next_state_is_previous_or_admissible_trajectory_point<B: AutodiffBackend, G: GradientTarget<B>>(pre: NUTSChain<Fl, B, G>, post: NUTSChain<Fl, B, G>)
+        requires nuts_step_post::<B, G>(pre, post)
+        ensures ({       // [C03.next_state_is_previous_or_slice_admissible_point_of_the_leapfrog_trajectory]
+            let (st0, logu, joint0) = trans_start::<B, G>(&pre.target, v1(pre.position), state(pre.rng));
+            v1(post.position) == v1(pre.position)
+            || exists |dir: int, idx: nat| (dir == 1 || dir == -1) && idx >= 1
+                && v1(post.position) == (#[trigger] traj::<B, G>(&pre.target, st0.plus, ve(dir, val(pre.epsilon)), idx)).x
+                && admissible_at::<B, G>(&pre.target, st0.plus, ve(dir, val(pre.epsilon)), idx, logu)
+        })
+    {
+        let (k, pol) = choose |k: nat, pol: bool| #[trigger] nuts_step_at::<B, G>(pre, post, k, pol);
+        let (st0, logu, joint0) = trans_start::<B, G>(&pre.target, v1(pre.position), state(pre.rng));
+        lemma_outer_on_trajectory::<B, G>(&pre.target, val(pre.epsilon), logu, joint0, pol, st0, st0.plus, k);
+        let g = outer_geo::<B, G>(&pre.target, val(pre.epsilon), logu, joint0, pol, st0, k);
+        if g.dir != 0 {
+            assert(v1(post.position) == traj::<B, G>(&pre.target, st0.plus, ve(g.dir, val(pre.epsilon)), g.idx).x);
+        }
+    }
+
     /// C04: adaptation parameters and state are finite, step size and averaged iterate positive
     pub open spec fn da_ok<B: AutodiffBackend, G: GradientTarget<B>>(c: NUTSChain<Fl, B, G>) -> bool {
         &&& val(c.epsilon) is Fin && rv(c.epsilon) > 0real && val(c.epsilon_bar) is Fin && rv(c.epsilon_bar) > 0real
